@@ -32,6 +32,10 @@ class Unsupported(Exception):
 # ---------------------------------------------------------------------------------------------
 # geometry
 
+class OracleMismatch(Exception):
+    """the form asks for something that has no meaning (e.g. a quadrature element off its points)."""
+
+
 class Cell:
     """one physical cell: coordinate element + nodal coordinates (nn x gdim)."""
 
@@ -172,6 +176,16 @@ def tabulate_physical(el, cell, X, nder):
             do += a
             co += b
         return vals, d1, d2
+    if cls == "_QuadratureElement":
+        # defined at its own points only: dof i is the value at point i
+        pts = np.asarray(el._points)
+        d = np.linalg.norm(pts - np.asarray(X, dtype=float).reshape(1, -1), axis=1)
+        i = int(np.argmin(d))
+        if d[i] > 1e-12:
+            raise OracleMismatch(f"quadrature element evaluated at {np.asarray(X).tolist()}, which is not one of its points")
+        vals = np.zeros((pts.shape[0], 1))
+        vals[i, 0] = 1.0
+        return vals, None, None
     raise Unsupported(f"element class {cls}")
 
 
@@ -269,6 +283,12 @@ def integrals_for(form, itype, sid):
 def rule_for(integral, cellname, itype, facet=None, polyset=basix.PolysetType.standard):
     md = integral.metadata() or {}
     scheme = md.get("quadrature_rule", md.get("quadrature_scheme", "default"))
+    # a quadrature element is defined at its own points only: they are the rule
+    qes = [e for e in ufl.algorithms.extract_elements(integral) if type(e).__name__ == "_QuadratureElement"]
+    if qes:
+        if itype != "cell" or any(not np.array_equal(np.asarray(e._points), np.asarray(qes[0]._points)) for e in qes):
+            raise Unsupported("quadrature elements off cells / with different points")
+        return np.asarray(qes[0]._points, dtype=float), np.asarray(qes[0]._weights, dtype=float)
     if scheme == "custom":
         return np.asarray(md["quadrature_points"], dtype=float), np.asarray(md["quadrature_weights"], dtype=float)
     if "quadrature_degree" not in md:
